@@ -241,9 +241,28 @@ mutual
 end
 
 mutual
-  /-- `encode` of a representable value is a `Val` denoting its canonical form. -/
-  theorem enc_val (pf : Bytes → UInt64) (ff : UInt64 → Bytes × Bytes) : ∀ (v : J), Rep v →
-      ∃ t, encode ff v = some t ∧ Val pf t (canon v)
+  /-- Nesting depth of a value: 0 for a scalar, one more than the deepest element (member value) for an
+  array (map); `[]` and `{}` have depth 1. It is the nesting depth of the text `encode` writes. -/
+  def depth : J → Nat
+    | .arr xs => depthList xs + 1
+    | .obj es => depthMems es + 1
+    | .null => 0
+    | .bool _ => 0
+    | .int _ => 0
+    | .float _ => 0
+    | .str _ => 0
+  def depthList : JList → Nat
+    | .nil => 0
+    | .cons x xs => max (depth x) (depthList xs)
+  def depthMems : JMems → Nat
+    | .nil => 0
+    | .cons _ v es => max (depth v) (depthMems es)
+end
+
+mutual
+  /-- `encode` of a representable value is a `ValD` denoting its canonical form, nested as deep as the value. -/
+  theorem enc_valD (pf : Bytes → UInt64) (ff : UInt64 → Bytes × Bytes) : ∀ (v : J), Rep v →
+      ∃ t, encode ff v = some t ∧ ValD pf (depth v) t (canon v)
     | .null, _ => ⟨_, rfl, .null⟩
     | .bool true, _ => ⟨_, rfl, .true⟩
     | .bool false, _ => ⟨_, rfl, .false⟩
@@ -251,59 +270,75 @@ mutual
       obtain ⟨h1, h2⟩ := h
       obtain ⟨ht, hv⟩ := appendInt_tok pf i h1 h2
       refine ⟨appendInt i, rfl, ?_⟩
-      have := Val.num (pf := pf) ht
+      have := ValD.num (pf := pf) (n := depth (.int i)) ht
       rw [hv] at this
       exact this
     | .float _, h => absurd h (by simp [Rep])
     | .str s, h => by
       refine ⟨encodeString s, rfl, ?_⟩
-      have := Val.str (pf := pf) (strBody_slowPath s)
+      have := ValD.str (pf := pf) (n := depth (.str s)) (strBody_slowPath s)
       rw [strDen_slowPath s h, ← encodeString_quote] at this
       exact this
     | .arr .nil, _ => ⟨[0x5B, 0x5D], by simp [encode, encodeList], by
-        have := Val.arrEmpty (pf := pf) ws_nil; simpa [canon, canonList] using this⟩
+        have := ValD.arrEmpty (pf := pf) (n := 0) ws_nil; simpa [canon, canonList, depth, depthList] using this⟩
     | .arr (.cons x xs), h => by
-      obtain ⟨e, he, hel⟩ := enc_list pf ff (.cons x xs) h (by simp)
+      obtain ⟨e, he, hel⟩ := enc_listD pf ff (.cons x xs) h (by simp)
       refine ⟨0x5B :: e ++ [0x5D], by simp [encode, he], ?_⟩
-      simpa [canon] using Val.arr hel
+      simpa [canon, depth] using ValD.arr hel
     | .obj .nil, _ => ⟨[0x7B, 0x7D], by simp [encode, encodeMems], by
-        have := Val.objEmpty (pf := pf) ws_nil; simpa [canon, canonMems, insertAll] using this⟩
+        have := ValD.objEmpty (pf := pf) (n := 0) ws_nil; simpa [canon, canonMems, insertAll, depth, depthMems] using this⟩
     | .obj (.cons k v es), h => by
-      obtain ⟨m, hm, hml⟩ := enc_mems pf ff (.cons k v es) h (by simp)
+      obtain ⟨m, hm, hml⟩ := enc_memsD pf ff (.cons k v es) h (by simp)
       refine ⟨0x7B :: m ++ [0x7D], by simp [encode, hm], ?_⟩
-      simpa [canon] using Val.obj hml
+      simpa [canon, depth] using ValD.obj hml
   /-- A non-empty element list. -/
-  theorem enc_list (pf : Bytes → UInt64) (ff : UInt64 → Bytes × Bytes) : ∀ (l : JList), RepList l → l ≠ .nil →
-      ∃ e, encodeList ff l = some e ∧ Elems pf e (canonList l)
+  theorem enc_listD (pf : Bytes → UInt64) (ff : UInt64 → Bytes × Bytes) : ∀ (l : JList), RepList l → l ≠ .nil →
+      ∃ e, encodeList ff l = some e ∧ ElemsD pf (depthList l) e (canonList l)
     | .nil, _, hne => absurd rfl hne
     | .cons x .nil, h, _ => by
-      obtain ⟨t, ht, hv⟩ := enc_val pf ff x h.1
+      obtain ⟨t, ht, hv⟩ := enc_valD pf ff x h.1
       refine ⟨t, by simp [encodeList, ht], ?_⟩
-      have := Elems.one (pf := pf) ws_nil hv ws_nil
+      have hle : depth x ≤ depthList (.cons x .nil) := by simp [depthList]
+      have := ElemsD.one (pf := pf) ws_nil (hv.mono hle) ws_nil
       simpa [canonList] using this
     | .cons x (.cons y ys), h, _ => by
-      obtain ⟨t, ht, hv⟩ := enc_val pf ff x h.1
-      obtain ⟨e, he, hel⟩ := enc_list pf ff (.cons y ys) h.2 (by simp)
+      obtain ⟨t, ht, hv⟩ := enc_valD pf ff x h.1
+      obtain ⟨e, he, hel⟩ := enc_listD pf ff (.cons y ys) h.2 (by simp)
       refine ⟨t ++ 0x2C :: e, by simp [encodeList, ht, he], ?_⟩
-      have := Elems.more (pf := pf) ws_nil hv ws_nil hel
+      have hle : depth x ≤ depthList (.cons x (.cons y ys)) := by
+        rw [depthList]; exact Nat.le_max_left _ _
+      have hle2 : depthList (.cons y ys) ≤ depthList (.cons x (.cons y ys)) := by
+        rw [depthList]; exact Nat.le_max_right _ _
+      have := ElemsD.more (pf := pf) ws_nil (hv.mono hle) ws_nil ((mono_all pf).2.1 hel _ hle2)
       simpa [canonList] using this
   /-- A non-empty member list. -/
-  theorem enc_mems (pf : Bytes → UInt64) (ff : UInt64 → Bytes × Bytes) : ∀ (l : JMems), RepMems l → l ≠ .nil →
-      ∃ m, encodeMems ff l = some m ∧ Members pf m (canonMems l)
+  theorem enc_memsD (pf : Bytes → UInt64) (ff : UInt64 → Bytes × Bytes) : ∀ (l : JMems), RepMems l → l ≠ .nil →
+      ∃ m, encodeMems ff l = some m ∧ MembersD pf (depthMems l) m (canonMems l)
     | .nil, _, hne => absurd rfl hne
     | .cons k v .nil, h, _ => by
-      obtain ⟨t, ht, hv⟩ := enc_val pf ff v h.2.1
+      obtain ⟨t, ht, hv⟩ := enc_valD pf ff v h.2.1
       refine ⟨encodeString k ++ 0x3A :: t, by simp [encodeMems, ht], ?_⟩
-      have := Members.one (pf := pf) ws_nil (strBody_slowPath k) ws_nil ws_nil hv ws_nil
+      have hle : depth v ≤ depthMems (.cons k v .nil) := by simp [depthMems]
+      have := MembersD.one (pf := pf) ws_nil (strBody_slowPath k) ws_nil ws_nil (hv.mono hle) ws_nil
       rw [strDen_slowPath k h.1, ← encodeString_quote] at this
       simpa [canonMems] using this
     | .cons k v (.cons k2 v2 es), h, _ => by
-      obtain ⟨t, ht, hv⟩ := enc_val pf ff v h.2.1
-      obtain ⟨m, hm, hml⟩ := enc_mems pf ff (.cons k2 v2 es) h.2.2 (by simp)
+      obtain ⟨t, ht, hv⟩ := enc_valD pf ff v h.2.1
+      obtain ⟨m, hm, hml⟩ := enc_memsD pf ff (.cons k2 v2 es) h.2.2 (by simp)
       refine ⟨encodeString k ++ 0x3A :: t ++ 0x2C :: m, by simp [encodeMems, ht, hm], ?_⟩
-      have := Members.more (pf := pf) ws_nil (strBody_slowPath k) ws_nil ws_nil hv ws_nil hml
+      have hle : depth v ≤ depthMems (.cons k v (.cons k2 v2 es)) := by
+        rw [depthMems]; exact Nat.le_max_left _ _
+      have hle2 : depthMems (.cons k2 v2 es) ≤ depthMems (.cons k v (.cons k2 v2 es)) := by
+        rw [depthMems]; exact Nat.le_max_right _ _
+      have := MembersD.more (pf := pf) ws_nil (strBody_slowPath k) ws_nil ws_nil (hv.mono hle) ws_nil ((mono_all pf).2.2 hml _ hle2)
       rw [strDen_slowPath k h.1, ← encodeString_quote] at this
       simpa [canonMems] using this
 end
+
+/-- `encode` of a representable value is a `Val` of the RFC grammar denoting its canonical form. -/
+theorem enc_val (pf : Bytes → UInt64) (ff : UInt64 → Bytes × Bytes) (v : J) (h : Rep v) :
+    ∃ t, encode ff v = some t ∧ Val pf t (canon v) := by
+  obtain ⟨t, ht, hv⟩ := enc_valD pf ff v h
+  exact ⟨t, ht, hv.toVal⟩
 
 end Tengo.Proofs.JsonEncode
